@@ -310,7 +310,27 @@ func mapPolicy(p types.SpendPolicy, f func(types.SpendPolicy) types.SpendPolicy)
 func drawPolicy(t *rapid.T) Case {
 	o := genOpts()
 	var p types.SpendPolicy
-	switch rapid.IntRange(0, 5).Draw(t, "policyShape") {
+	switch rapid.IntRange(0, 6).Draw(t, "policyShape") {
+	case 6:
+		// a wide threshold (up to the 255 children the binary form can count), at the root or one level down
+		w := rapid.SampledFrom([]int{64, 127, 128, 129, 200, 254, 255}).Draw(t, "width")
+		of := make([]types.SpendPolicy, w)
+		for i := range of {
+			switch (i + w) % 4 {
+			case 0:
+				of[i] = types.PolicyAbove(uint64(i))
+			case 1:
+				of[i] = types.PolicyOpaque(types.PolicyAbove(uint64(i)))
+			case 2:
+				of[i] = types.PolicyPublicKey(types.PublicKey{byte(i), byte(w)})
+			default:
+				of[i] = types.PolicyHash(types.Hash256{byte(i)})
+			}
+		}
+		p = types.PolicyThreshold(uint8(rapid.IntRange(0, w).Draw(t, "n")), of)
+		if rapid.Bool().Draw(t, "nestWide") {
+			p = types.PolicyThreshold(1, []types.SpendPolicy{types.PolicyAbove(7), p})
+		}
 	case 0, 1:
 		p = types.SpendPolicy{Type: types.PolicyTypeUnlockConditions(gen.Of[types.UnlockConditions](t, o))}
 	case 2:
